@@ -317,7 +317,7 @@ func crlf(s string) string { return strings.ReplaceAll(s, "\n", "\r\n") }
 var configs = map[string]config{
 	"tf-main": {
 		Root:  map[string]string{"main.tf": rootMain, "vars.tf": rootVars},
-		Child: map[string]string{"main.tf": childMain},
+		Child: map[string]string{"kid.tf": childMain},
 	},
 	"tf-small": {
 		Root: map[string]string{"main.tf": smallMain},
@@ -327,13 +327,13 @@ var configs = map[string]config{
 	},
 	"tf-crlf": {
 		Root:  map[string]string{"main.tf": crlf(smallMain), "uni.tf": crlf(rootUnicode)},
-		Child: map[string]string{"main.tf": crlf(childMain)},
+		Child: map[string]string{"kid.tf": crlf(childMain)},
 	},
 	"tf-json": {
 		Root: map[string]string{"main.tf.json": rootJSON, "main.tf": smallMain},
 	},
 	"tf-child-only": {
 		Root:  map[string]string{"main.tf": "module \"kid\" {\n  source = \"./child\"\n  name   = \"n\"\n}\n\noutput \"g\" {\n  value = module.kid.greeting\n}\n"},
-		Child: map[string]string{"main.tf": childMain},
+		Child: map[string]string{"kid.tf": childMain},
 	},
 }
